@@ -72,3 +72,141 @@ def same_cell(a, b):
     if not isinstance(a, (S.SReal, S.SBool)) and not isinstance(b, (S.SReal, S.SBool)):
         return float(a) == float(b)
     return None
+
+
+# ------------------------------------------------------------------------------------------
+# cut points: every value the kernel WRITES into the working array becomes a fresh symbol with a recorded
+# definition.  Obligations are then decided locally (definitions of the symbols occurring in the claim only:
+# earlier cells are arbitrary reals -- a sound over-approximation of the preceding state, i.e. an inductive
+# step); if that does not give `unsat`, the definitions are unfolded transitively (exact) before any model
+# is believed.
+# ------------------------------------------------------------------------------------------
+
+class CutStore:
+    def __init__(self, prefix="c"):
+        self.prefix = prefix
+        self.defs = {}          # z3 id of the cut symbol -> (symbol term, defining term)
+        self.n = 0
+
+    def cut(self, v):
+        if isinstance(v, S.SReal):
+            t = v.t
+            if z3.is_const(t) and t.decl().kind() == z3.Z3_OP_UNINTERPRETED:
+                return v                      # already a plain symbol
+            if z3.is_rational_value(t) or z3.is_int_value(t):
+                return v
+            self.n += 1
+            s = S.sym(f"{self.prefix}!{self.n}", v.v)
+            self.defs[s.t.get_id()] = (s.t, t)
+            return s
+        if isinstance(v, np.ndarray) and v.dtype == object:
+            out = np.empty(v.shape, dtype=object)
+            for idx in np.ndindex(*v.shape):
+                out[idx] = self.cut(v[idx])
+            return out
+        return v
+
+    def _symbols_in(self, terms):
+        seen, found = set(), []
+
+        def walk(t):
+            if t.get_id() in seen:
+                return
+            seen.add(t.get_id())
+            if t.get_id() in self.defs:
+                found.append(t.get_id())
+            for ch in t.children():
+                walk(ch)
+        for t in terms:
+            walk(t)
+        return found
+
+    def definitions(self, terms, transitive=False):
+        """equalities symbol == definition for the cut symbols occurring in `terms` (optionally transitively)"""
+        out, done = [], set()
+        todo = self._symbols_in(terms)
+        while todo:
+            i = todo.pop()
+            if i in done:
+                continue
+            done.add(i)
+            s, d = self.defs[i]
+            out.append(s == d)
+            if transitive:
+                todo += self._symbols_in([d])
+        return out
+
+
+def unfold(store, term, transitive=False, max_rounds=50):
+    """substitute the definitions of the cut symbols occurring in `term` (one level, or until none is left)
+    and rebuild the result through the normalising LOG/EXP constructors"""
+    t = term
+    for _ in range(max_rounds):
+        ids = store._symbols_in([t])
+        if not ids:
+            break
+        t = z3.substitute(t, *[store.defs[i] for i in ids])
+        if not transitive:
+            break
+    return S.renorm(t)
+
+
+def unfold_latest(store, term):
+    """substitute the most recently defined cut symbol occurring in `term` by its definition (which mentions only
+    earlier symbols) and renormalise; returns (new term, True) or (term, False) when no cut symbol is left"""
+    ids = store._symbols_in([term])
+    if not ids:
+        return term, False
+    order = {i: k for k, i in enumerate(store.defs)}      # dict preserves definition order
+    i = max(ids, key=lambda j: order[j])
+    return S.renorm(z3.substitute(term, store.defs[i])), True
+
+
+def prove_by_unfolding(run, key, claim, store, assume, axioms_fn, step_timeout_ms=10000, final_timeout_ms=60000, sample=None, nl=True):
+    """
+    Decide `claim` over cut symbols: unfold the latest-defined symbol, try to prove, repeat.  A claim proved
+    with some symbols still folded holds for arbitrary values of those symbols (sound over-approximation).
+    Only the fully unfolded (exact) query can return a counterexample.
+    returns ("unsat", None, steps) | ("sat", model, steps) | ("unknown", None, steps)
+    """
+    t, steps = claim, 0
+    while True:
+        t, more = unfold_latest(store, t)
+        if not more:
+            break
+        steps += 1
+        left = store._symbols_in([t])
+        if not left:
+            break
+        nonzero = [store.defs[i][0] != 0 for i in left]     # folded cells are arbitrary non-zero reals (denominators)
+        r, _ = run.prove(key, t, list(assume) + nonzero + axioms_fn([t]), timeout_ms=step_timeout_ms, nl=nl,
+                         sample=dict(sample, claim_after_unfolding=str(t)[:300], unfolding_steps=steps) if sample and steps == 1 else None)
+        if r == "unsat":
+            return "unsat", None, steps
+    r, m = run.prove(key, t, list(assume) + axioms_fn([t]), timeout_ms=final_timeout_ms, nl=nl,
+                     sample=dict(sample, claim_fully_unfolded=str(t)[:300], unfolding_steps=steps) if sample else None)
+    return r, m, steps
+
+
+class CutArray(np.ndarray):
+    """object ndarray whose writes go through a CutStore"""
+    _store = None
+
+    def __array_finalize__(self, obj):
+        if obj is not None:
+            self._store = getattr(obj, "_store", None)
+
+    def __setitem__(self, idx, val):
+        st = self._store
+        if st is not None:
+            if isinstance(val, np.ndarray) and val.dtype != object:
+                pass
+            else:
+                val = st.cut(val)
+        super().__setitem__(idx, val)
+
+
+def cut_array(obj, store):
+    a = np.asarray(obj, dtype=object).view(CutArray)
+    a._store = store
+    return a
